@@ -59,6 +59,7 @@ func init() {
 				ruleLockedWrapper(c, a.cacheA)
 				ruleCacheMiddleware(c, a, set("ticket-discharge", "completion-only-by-fetcher"))
 				ruleProxyMiddleware(c, a, set("proxy-deadline", "upstream-error-propagates"))
+				ruleLockset(c)
 			})
 		})
 	register("C03",
@@ -69,6 +70,7 @@ func init() {
 				rulePassMethods(c, a)
 				ruleContextKeys(c, a)
 				ruleResponder(c, a)
+				ruleProxyHandlerDirect(c)
 				ruleCacheMiddleware(c, a, set("pass-methods", "forward-once", "label", "hit-does-not-forward", "store-gate", "completion-only-by-fetcher"))
 				ruleProxyMiddleware(c, a, set("forward-once", "lifetime-plumbing", "upstream-error-propagates"))
 			})
@@ -94,6 +96,8 @@ func init() {
 				ruleCompletionPaths(c, a.cacheA, set("completes-on-every-path", "ttl-positive", "expiry-value"))
 				ruleCacheMiddleware(c, a, set("ticket-discharge", "hit-for-pass-period", "completion-only-by-fetcher", "forward-once"))
 				ruleProxyMiddleware(c, a, set("withheld-on-fetch", "lifetime-plumbing"))
+				ruleLockedWrapper(c, a.cacheA)
+				ruleStoreLoadAtomic(c, a.cacheA)
 				ruleConverters(c)
 			})
 		})
@@ -108,6 +112,8 @@ func init() {
 				ruleTruncation(c)
 				ruleStoreOpenNonFatal(c)
 				ruleStoreSiblings(c)
+				ruleStoreWriteOrdered(c)
+				ruleTypedNilStore(c)
 			})
 		})
 	register("C10",
@@ -121,6 +127,8 @@ func init() {
 				rulePurge(c, a.cacheA)
 				ruleStoreSiblings(c)
 				ruleStoreOpenNonFatal(c)
+				ruleTypedNilStore(c)
+				ruleGetOrCreate(c)
 			})
 		})
 	register("C06",
@@ -145,6 +153,8 @@ func init() {
 				ruleCapacity(c)
 				ruleEntryContainers(c, a.cacheA)
 				ruleGetOrCreate(c)
+				ruleKey(c)
+				ruleKeyImmutable(c)
 				ruleLRUContract(c)
 			})
 		})
@@ -154,6 +164,7 @@ func init() {
 			withAnchors(c, func(a *serverAnchors) {
 				rulePurge(c, a.cacheA)
 				rulePurgeAll(c)
+				ruleStoreWriteOrdered(c)
 				ruleAdminPurge(c)
 				ruleShardFunction(c)
 				ruleEntryWriters(c, a.cacheA)
@@ -170,6 +181,8 @@ func init() {
 				ruleIgnoredHeaders(c)
 				ruleCompressVariants(c)
 				ruleDecoderDispatch(c)
+				ruleDecodersReadAll(c)
+				rulePooledBytes(c)
 				ruleLZ4Bound(c)
 				ruleProxyMiddleware(c, a, set("response-built", "location-edits-order"))
 				ruleCacheMiddleware(c, a, set("hit-serves-stored"))
@@ -186,6 +199,9 @@ func init() {
 				rulePrecompress(c, a)
 				ruleCompressVariants(c)
 				ruleCodecLevels(c)
+				ruleLevelApplied(c)
+				rulePublishedResponse(c, a)
+				ruleRawProvenance(c)
 				ruleProxyMiddleware(c, a, set("server-settings"))
 			})
 		})
@@ -193,6 +209,8 @@ func init() {
 		"Decides stream finalisation order (the compressing writer is closed on every successful path and the buffer is not read before that), level clamping for every int (the value reaching gzip.NewWriterLevel is in [-2,9], brotli's in [0,11]), propagation of every codec library error, the lz4 destination bound (a short-buffer failure is final only at 255 x input) and the decoder dispatch. That the codecs are exact inverses for every byte string and never panic on malformed input is numeric behaviour of third-party libraries: not applicable to static analysis.",
 		nil, func(c *Ctx) {
 			ruleEncoders(c)
+			ruleLevelApplied(c)
+			ruleDecodersReadAll(c)
 			ruleCodecLevels(c)
 			ruleLZ4Bound(c)
 			ruleDecoderErrors(c)
@@ -226,6 +244,8 @@ func init() {
 				ruleProxyMiddleware(c, a, set("withheld-on-fetch", "restore", "accept-encoding-override", "location-edits-order", "lifetime-plumbing", "next-restored", "response-built", "forward-once", "upstream-error-propagates"))
 				ruleCacheMiddleware(c, a, set("completion-only-by-fetcher", "store-gate"))
 				ruleRequestWrites(c)
+				ruleProxyHandlerDirect(c)
+				ruleFill(c)
 				ruleLocationEdits(c)
 				ruleChainOrder(c, a)
 			})
@@ -242,12 +262,14 @@ func init() {
 			ruleCompressReset(c)
 			ruleServersReset(c)
 			ruleUpstreamCtor(c)
+			ruleWatchEveryWrite(c)
 		})
 	register("C19",
 		"Decides pike's wiring of the health-checked pool (the pool itself lives in the dependency github.com/vicanso/upstream): servers marked backup are registered as backups and only those, each with its own address; policy and ping path come from the configuration; a health check runs before a pool is published and periodically after; a reload never stops the health check of an instance that stays in service; the proxy target is only what the pool's Next() returned and 'no healthy server' is a 5xx error. The fault-sequence quantifier (up/down timing, recovery, even distribution) is run-time behaviour of the dependency and the network: not applicable.",
 		[]string{"github.com/vicanso/upstream: Next() returns only servers whose last health check passed, backups only when no primary is healthy"}, func(c *Ctx) {
 			withAnchors(c, func(a *serverAnchors) {
 				ruleUpstreamCtor(c)
+				rulePoolFields(c)
 				ruleTargetPicker(c)
 				ruleUpstreamSwap(c)
 				ruleProxyMiddleware(c, a, set("proxy-resolution", "forward-once"))
@@ -261,6 +283,8 @@ func init() {
 			ruleYAMLTable(c)
 			ruleValidatorsAgree(c)
 			ruleConverters(c)
+			ruleKeepCache(c)
+			ruleStoreOpenNonFatal(c)
 		})
 	register("C20",
 		"Decides lock discipline for all shared mutable state reachable from main (request, purge, admin and reload paths): every access to a guarded field (entry state, shard LRU, server settings, location list) holds the owner's lock in a sufficient mode, locally or through every caller; every lock is released on every return; the lock-order graph is acyclic; fields read without a lock are written only while their object is private to its constructor; a published response is never written; memory from a sync.Pool never escapes into keys, bodies or records; the entry lookup is made under the write lock and a woken waiter re-reads under the lock. Race-detector stress and 'the process does not crash' over schedules are not applicable to static analysis.",
@@ -274,7 +298,7 @@ func init() {
 				ruleRegistriesTyped(c)
 				ruleLockedWrapper(c, a.cacheA)
 				ruleGetOrCreate(c)
-				ruleCompletionPaths(c, a.cacheA, set("locked"))
+				ruleCompletionPaths(c, a.cacheA, set("locked", "completes-on-every-path"))
 				ruleEntryWriters(c, a.cacheA)
 			})
 		})
